@@ -8,6 +8,7 @@ import logging
 from typing import Any
 
 import aiofiles
+from marshmallow import ValidationError
 
 from .exceptions import PersistenceReadError, PersistenceWriteError
 from .model.node import Node, NodeSchema
@@ -42,9 +43,17 @@ class Persistence:
         except (OSError, ValueError) as err:
             raise PersistenceReadError(err) from err
 
+        if not isinstance(data, dict):
+            raise PersistenceReadError(
+                ValueError("The persistence file must hold a JSON object.")
+            )
+
         node_schema = NodeSchema()
         for node_data in data.values():
-            node: Node = node_schema.load(node_data)
+            try:
+                node: Node = node_schema.load(node_data)
+            except ValidationError as err:
+                raise PersistenceReadError(err) from err
             self.nodes[node.node_id] = node
 
     async def save(self) -> None:
